@@ -360,21 +360,25 @@ AllowedMixed(c, obs) ==
       free == IF o.sum THEN 1 ELSE 0
       ent == DEntry(c)
       body == SubSeq(obs.bytes, H + 1, H + N)
-      clipOf(i) == ClipBytes(o.lane, items[i], A, B)
-      small == UNION {clipOf(i) : i \in {j \in S : items[j].gran < G}}
+      \* (zero-arity definitions: TLC evaluates each of them once per judged output)
+      clips == [i \in S |-> ClipBytes(o.lane, items[i], A, B)]
+      seqs == [i \in S |-> ClipSeq(o.lane, items[i], A, B)]
+      allclip == UNION {clips[j] : j \in S}
+      small == UNION {clips[j] : j \in {k \in S : items[k].gran < G}}
+      others == [i \in S |-> UNION {clips[j] : j \in S \ {i}}]
       big == {i \in S : items[i].gran = G}
+      ownOK == {o.fill} \cup allclip
       sameGran(i, j) == items[i].gran = items[j].gran
       bytesMeet(r1, r2) == Max2(ByteLo(r1), ByteLo(r2)) < Min2(ByteHi(r1), ByteHi(r2))
   IN /\ obs.rc = 0
      /\ Len(obs.bytes) = H + N                                                                        \* (len)
      /\ ent >= 0 => SubSeq(obs.bytes, 1, H) = EntryBytes(o, ent)
-     /\ \A i \in 1..(N - free) : body[i] \in {o.fill} \cup UNION {clipOf(j) : j \in S}                 \* (own)
+     /\ \A i \in 1..(N - free) : body[i] \in ownOK                                                    \* (own)
      /\ \A i \in 1..(N - free) :                                                                       \* (pos)
            LET x == LaneAddr(o.lane, A * G, i)
                cov == {j \in big : CoversByte(items[j], x)}
            IN body[i] \in (IF cov = {} THEN {o.fill} ELSE {ByteAt(items[j], x) : j \in cov}) \cup small
-     /\ \A i \in S : RunSomewhere(body, ClipSeq(o.lane, items[i], A, B),                               \* (run)
-                                  UNION {clipOf(j) : j \in S \ {i}}, free)
+     /\ \A i \in S : RunSomewhere(body, seqs[i], others[i], free)                                      \* (run)
      /\ o.sum => /\ N >= 1                                                                             \* (sum)
                  /\ Sum(body) % 256 = 0 \/ (H > 0 /\ Sum(obs.bytes) % 256 = 0)
      /\ (\E i, j \in S : i < j /\ sameGran(i, j) /\ CommonAddr(items[i], items[j], A, B)) => obs.warn  \* (warn)
